@@ -24,6 +24,11 @@ Proof.
   - apply is_member_false. rewrite <- H. now apply is_member_false.
 Qed.
 
+Lemma is_member_cons : forall d e l, is_member d (e :: l) = (fst e =? d) || is_member d l.
+Proof. reflexivity. Qed.
+Lemma is_member_nil : forall d, is_member d [] = false.
+Proof. reflexivity. Qed.
+
 (* ---------- swap_remove ---------- *)
 Lemma find_idx_split : forall d l i, find_idx d l = Some i ->
   exists l1 e l2, l = l1 ++ e :: l2 /\ fst e = d /\ i = length l1.
@@ -56,29 +61,31 @@ Proof.
   rewrite app_length. cbn [length].
   destruct l2 as [|z0 l2r] using rev_ind.
   - (* removed element is the last one *)
-    replace (Nat.ltb (length l1) (length l1 + 1 - 1)) with false by (symmetry; apply Nat.ltb_ge; lia).
+    match goal with |- context [if ?c then _ else _] => destruct c eqn:L end;
+      [apply Nat.ltb_lt in L; cbn [length] in L; lia|].
     rewrite removelast_last. split.
-    + intros y. rewrite is_member_app. cbn. rewrite Hd, orb_false_r.
-      destruct (y =? d) eqn:E; cbn.
-      * apply N.eqb_eq in E; subst. now rewrite Hl1.
-      * rewrite N.eqb_sym, E. now rewrite orb_false_r, andb_true_r.
+    + intros y. rewrite is_member_app, is_member_cons, is_member_nil. rewrite Hd, orb_false_r.
+      destruct (y =? d) eqn:E; cbn [negb].
+      * apply N.eqb_eq in E; subst y. now rewrite Hl1, andb_false_r.
+      * rewrite N.eqb_sym, E. now rewrite !orb_false_r, andb_true_r.
     + unfold keys. now rewrite app_nil_r in ND1.
   - clear IHl2r.
-    replace (Nat.ltb (length l1) (length l1 + S (length (l2r ++ [z0])) - 1)) with true
-      by (symmetry; apply Nat.ltb_lt; rewrite app_length; cbn; lia).
+    match goal with |- context [if ?c then _ else _] => destruct c eqn:L end;
+      [|apply Nat.ltb_ge in L; cbn [length] in L; rewrite app_length in L; cbn [length] in L; lia].
     assert (Hlast : last (l1 ++ e :: l2r ++ [z0]) (0, 0%Z) = z0).
     { replace (l1 ++ e :: l2r ++ [z0]) with ((l1 ++ e :: l2r) ++ [z0]) by (rewrite <- app_assoc; reflexivity). apply last_last. }
     rewrite Hlast, set_nth_app.
     replace (l1 ++ z0 :: l2r ++ [z0]) with ((l1 ++ z0 :: l2r) ++ [z0]) by (rewrite <- app_assoc; reflexivity).
     rewrite removelast_last.
-    rewrite is_member_app in Hl2. apply orb_false_iff in Hl2. destruct Hl2 as (Hl2r & Hz). cbn in Hz. rewrite orb_false_r in Hz.
+    rewrite is_member_app in Hl2. apply orb_false_iff in Hl2. destruct Hl2 as (Hl2r & Hz).
+    rewrite is_member_cons, is_member_nil, orb_false_r in Hz.
     split.
-    + intros y. rewrite !is_member_app. cbn. rewrite !is_member_app. cbn. rewrite Hd, !orb_false_r.
-      destruct (y =? d) eqn:E; cbn.
-      * apply N.eqb_eq in E; subst. now rewrite Hl1, Hl2r, Hz.
-      * rewrite (N.eqb_sym d y), E, andb_true_r. cbn.
+    + intros y. rewrite ?is_member_app, ?is_member_cons, ?is_member_app, ?is_member_cons, ?is_member_nil. rewrite Hd, ?orb_false_r.
+      destruct (y =? d) eqn:E; cbn [negb].
+      * apply N.eqb_eq in E; subst y. now rewrite Hl1, Hl2r, Hz, andb_false_r.
+      * rewrite (N.eqb_sym d y), E, andb_true_r.
         destruct (is_member y l1), (fst z0 =? y), (is_member y l2r); reflexivity.
-    + unfold keys in *. rewrite map_app in *. cbn [map] in *. rewrite map_app in ND1. cbn [map] in ND1.
+    + unfold keys in *. rewrite ?map_app in *. cbn [map] in *. rewrite ?map_app in *. cbn [map] in *.
       eapply Permutation_NoDup; [|exact ND1].
       apply Permutation_app_head. apply Permutation_sym. apply Permutation_cons_append.
 Qed.
@@ -95,16 +102,16 @@ Proof.
     destruct IH as (IH1 & IH2). unfold acc, scan_step in Ea. cbn [fst snd] in Ea.
     split.
     + split.
-      * intros H. apply IH1 in H. destruct H as (-> & ->). exfalso.
+      * intros H. destruct (proj1 IH1 H) as (Ho & Hr). exfalso. subst o'.
         destruct o; cbn in Ea; [destruct (snd e <? v)%Z|]; inversion Ea.
       * intros (_ & H). discriminate.
-    + intros k H. apply IH2 in H. destruct H as [H | H].
+    + intros k H0. destruct (IH2 k H0) as [H | H].
       * destruct o as [k0|]; cbn in Ea.
-        -- destruct (snd e <? v)%Z; inversion Ea; subst.
-           ++ inversion H; subst. right. cbn. now rewrite N.eqb_refl.
-           ++ now left.
-        -- inversion Ea; subst. inversion H; subst. right. cbn. now rewrite N.eqb_refl.
-      * right. cbn. rewrite H. apply orb_true_r.
+        -- destruct (snd e <? v)%Z; injection Ea as Hv Ho.
+           ++ rewrite <- Ho in H. injection H as Hk. right. rewrite is_member_cons, Hk, N.eqb_refl. reflexivity.
+           ++ left. congruence.
+        -- injection Ea as Hv Ho. rewrite <- Ho in H. injection H as Hk. right. rewrite is_member_cons, Hk, N.eqb_refl. reflexivity.
+      * right. rewrite is_member_cons, H. apply orb_true_r.
 Qed.
 
 Lemma calc_min_entries : forall tol a, as_entries (calc_min tol a) = as_entries a.
@@ -137,3 +144,552 @@ Proof.
     + exists b0. rewrite Hb. auto.
   - exists b0. rewrite Hb. auto.
 Qed.
+
+(* ---------- notify: membership ---------- *)
+Lemma set_lat_keys : forall d v l, keys (set_lat d v l) = keys l.
+Proof. intros; unfold keys, set_lat. rewrite map_map. apply map_ext. intros e. destruct (fst e =? d); reflexivity. Qed.
+
+Ltac split_ifs :=
+  repeat (cbn [fst snd as_entries as_best as_best_lat andb negb orb];
+          match goal with
+          | |- context [if ?c then _ else _] => destruct c eqn:?
+          | |- context [match ?x with Some _ => _ | None => _ end] => destruct x eqn:?
+          end).
+
+Lemma notify_entries_keys : forall minp tol off a d alive lat,
+  keys (as_entries (fst (notify minp tol off a d alive lat))) =
+  keys (if alive then (if is_member d (as_entries a) then as_entries a else as_entries a ++ [(d, 0%Z)])
+        else (if is_member d (as_entries a) then swap_remove d (as_entries a) else as_entries a)).
+Proof.
+  intros. unfold notify.
+  destruct alive; destruct (is_member d (as_entries a)) eqn:M; destruct minp; destruct lat as [raw|];
+    cbn [andb negb orb fst snd as_entries as_best as_best_lat];
+    split_ifs; rewrite ?calc_min_entries; cbn [as_entries]; rewrite ?calc_min_entries, ?set_lat_keys; try reflexivity.
+  all: cbn [fst snd]; rewrite ?calc_min_entries; reflexivity.
+Qed.
+
+Lemma NoDup_snoc : forall (l : list N) d, NoDup l -> ~ In d l -> NoDup (l ++ [d]).
+Proof. intros. eapply Permutation_NoDup; [apply Permutation_cons_append|]. now constructor. Qed.
+
+Lemma notify_mem : forall minp tol off a d alive lat, NoDup (keys (as_entries a)) ->
+  let a' := fst (notify minp tol off a d alive lat) in
+  NoDup (keys (as_entries a')) /\
+  forall y, is_member y (as_entries a') = if y =? d then alive else is_member y (as_entries a).
+Proof.
+  intros minp tol off a d alive lat ND a'. subst a'.
+  pose proof (notify_entries_keys minp tol off a d alive lat) as K.
+  split.
+  - rewrite K. destruct alive; destruct (is_member d (as_entries a)) eqn:M; try assumption.
+    + unfold keys. rewrite map_app. cbn [map fst]. apply NoDup_snoc; [assumption|]. now apply is_member_false.
+    + now apply swap_remove_spec.
+  - intros y. rewrite (is_member_keys y _ _ K).
+    destruct alive; destruct (is_member d (as_entries a)) eqn:M.
+    + destruct (y =? d) eqn:E; [apply N.eqb_eq in E; now subst|reflexivity].
+    + rewrite is_member_app, is_member_cons, is_member_nil, orb_false_r. cbn [fst]. rewrite (N.eqb_sym d y).
+      destruct (y =? d) eqn:E; [apply orb_true_r|apply orb_false_r].
+    + destruct (swap_remove_spec d (as_entries a) ND) as (S1 & _). rewrite S1.
+      destruct (y =? d); [apply andb_false_r|apply andb_true_r].
+    + destruct (y =? d) eqn:E; [apply N.eqb_eq in E; now subst|reflexivity].
+Qed.
+
+(* ---------- notify: best dialer and callbacks (latency policies) ---------- *)
+Definition isSome (o : option N) : bool := negb (optN_eqb o None).
+Definition newbit (old : bool) (cbs : list bool) : bool := match rev cbs with [] => old | v :: _ => v end.
+
+Lemma isSome_Some : forall b, isSome (Some b) = true. Proof. reflexivity. Qed.
+Lemma isSome_None : isSome None = false. Proof. reflexivity. Qed.
+Lemma optN_eqb_eq : forall a b, optN_eqb a b = true <-> a = b.
+Proof.
+  intros [x|] [y|]; cbn; split; intros H; try discriminate; try reflexivity.
+  - apply N.eqb_eq in H; now subst.
+  - inversion H; apply N.eqb_refl.
+Qed.
+
+Lemma cb2_bit : forall nb ob,
+  newbit (isSome ob) ([] ++ (if optN_eqb nb ob then []
+                             else match nb, ob with Some _, None => [true] | Some _, Some _ => [] | None, _ => [false] end))
+  = isSome nb.
+Proof. intros [x|] [y|]; cbn; try reflexivity. destruct (x =? y); reflexivity. Qed.
+
+Local Arguments calc_min : simpl never.
+Local Arguments set_lat : simpl never.
+Local Arguments swap_remove : simpl never.
+Local Arguments is_member : simpl never.
+Local Arguments optN_eqb : simpl never.
+Local Arguments switch_ok : simpl never.
+Local Arguments Z.ltb : simpl never.
+Local Arguments Z.add : simpl never.
+Local Arguments isSome : simpl never.
+Local Arguments newbit : simpl never.
+
+Lemma is_member_set_lat : forall y d v l, is_member y (set_lat d v l) = is_member y l.
+Proof. intros. apply is_member_keys. apply set_lat_keys. Qed.
+
+Lemma notify_inv : forall tol off a d alive lat,
+  NoDup (keys (as_entries a)) -> Ibest a ->
+  let r := notify true tol off a d alive lat in
+  Ibest (fst r) /\ newbit (isSome (as_best a)) (snd r) = isSome (as_best (fst r)).
+Proof.
+  intros tol off a d alive lat ND (I1 & I2).
+  assert (Hsw : forall y, is_member y (swap_remove d (as_entries a)) = is_member y (as_entries a) && negb (y =? d))
+    by (apply swap_remove_spec; assumption).
+  unfold notify. destruct lat as [raw|]; destruct alive; destruct (is_member d (as_entries a)) eqn:M; cbn.
+  - (* latency, alive, already a member *)
+    rewrite M. split; [|apply cb2_bit].
+    destruct (optN_eqb (as_best a) None || switch_ok tol (raw + off) (as_best_lat a)) eqn:C1; cbn.
+    { split; cbn [as_entries as_best as_best_lat]; [discriminate|]. intros b Hb; inversion Hb; subst. now rewrite is_member_set_lat. }
+    apply orb_false_iff in C1. destruct C1 as (C1 & _).
+    destruct (as_best a) as [b0|] eqn:B; [|discriminate]. clear C1.
+    destruct (optN_eqb (Some b0) (Some d)) eqn:C2; cbn.
+    + apply optN_eqb_eq in C2. inversion C2; subst b0.
+      destruct (as_best_lat a <? raw + off)%Z.
+      * match goal with |- Ibest (calc_min tol ?X) =>
+          destruct (calc_min_best_some tol X d eq_refl) as (b & Hb & Hm); split; rewrite calc_min_entries; cbn [as_entries] in * end.
+        -- rewrite Hb; discriminate.
+        -- intros b' Hb'. rewrite Hb in Hb'. inversion Hb'; subst b'. rewrite is_member_set_lat in *. destruct Hm; [now subst|assumption].
+      * split; cbn; [discriminate|]. intros b Hb; inversion Hb; subst. now rewrite is_member_set_lat.
+    + split; cbn; [discriminate|]. intros b Hb; inversion Hb; subst. rewrite is_member_set_lat. now apply I2.
+  - (* latency, alive, new member *)
+    assert (Hd : is_member d (as_entries a ++ [(d, 0%Z)]) = true)
+      by (rewrite is_member_app, is_member_cons; cbn [fst]; rewrite N.eqb_refl; apply orb_true_r).
+    rewrite Hd. split; [|apply cb2_bit].
+    destruct (optN_eqb (as_best a) None || switch_ok tol (raw + off) (as_best_lat a)) eqn:C1; cbn.
+    { split; cbn [as_entries as_best as_best_lat]; [discriminate|]. intros b Hb; inversion Hb; subst. now rewrite is_member_set_lat. }
+    apply orb_false_iff in C1. destruct C1 as (C1 & _).
+    destruct (as_best a) as [b0|] eqn:B; [|discriminate]. clear C1.
+    assert (Hb0 : is_member b0 (as_entries a ++ [(d, 0%Z)]) = true) by (rewrite is_member_app, (I2 b0 eq_refl); reflexivity).
+    destruct (optN_eqb (Some b0) (Some d)) eqn:C2; cbn.
+    + apply optN_eqb_eq in C2. inversion C2; subst b0.
+      destruct (as_best_lat a <? raw + off)%Z.
+      * match goal with |- Ibest (calc_min tol ?X) =>
+          destruct (calc_min_best_some tol X d eq_refl) as (b & Hb & Hm); split; rewrite calc_min_entries; cbn [as_entries] in * end.
+        -- rewrite Hb; discriminate.
+        -- intros b' Hb'. rewrite Hb in Hb'. inversion Hb'; subst b'. rewrite is_member_set_lat in *. destruct Hm; [now subst|assumption].
+      * split; cbn; [discriminate|]. intros b Hb; inversion Hb; subst. now rewrite is_member_set_lat.
+    + split; cbn; [discriminate|]. intros b Hb; inversion Hb; subst. now rewrite is_member_set_lat.
+  - (* latency, dead, was a member *)
+    assert (Hnd : is_member d (swap_remove d (as_entries a)) = false) by (rewrite Hsw, N.eqb_refl; apply andb_false_r).
+    rewrite Hnd. split; [|apply cb2_bit].
+    destruct (as_best a) as [b0|] eqn:B.
+    2:{ rewrite (I1 eq_refl) in M. discriminate. }
+    destruct (optN_eqb (Some b0) (Some d)) eqn:C2; cbn.
+    + match goal with |- Ibest (calc_min tol ?X) =>
+        destruct (calc_min_best_none tol X eq_refl) as (H1 & H2); split; rewrite calc_min_entries; cbn [as_entries] in * end.
+      * apply H1. * exact H2.
+    + split; cbn; [discriminate|]. intros b Hb; inversion Hb; subst. rewrite Hsw, (I2 b eq_refl). cbn.
+      destruct (b =? d) eqn:E; [|reflexivity]. apply N.eqb_eq in E; subst.
+      assert (optN_eqb (Some d) (Some d) = true) by now apply optN_eqb_eq. congruence.
+  - (* latency, dead, not a member *)
+    rewrite M. split; [|apply cb2_bit].
+    destruct (optN_eqb (as_best a) (Some d)) eqn:C2; cbn.
+    + apply optN_eqb_eq in C2. rewrite (I2 d C2) in M. discriminate.
+    + split; cbn; assumption.
+  - (* no latency, alive, already a member *)
+    destruct (optN_eqb (as_best a) None) eqn:C; cbn.
+    + split; [split; cbn; [discriminate|intros b Hb; inversion Hb; now subst]|reflexivity].
+    + split; [split; assumption|reflexivity].
+  - (* no latency, alive, new member *)
+    destruct (optN_eqb (as_best a) None) eqn:C; cbn.
+    + split; [split; cbn; [discriminate|]|reflexivity]. intros b Hb; inversion Hb; subst.
+      rewrite is_member_app, is_member_cons; cbn [fst]; rewrite N.eqb_refl; apply orb_true_r.
+    + split; [|reflexivity]. split; cbn.
+      * intros Hn. rewrite Hn in C. discriminate.
+      * intros b Hb. rewrite is_member_app, (I2 b Hb). reflexivity.
+  - (* no latency, dead, was a member *)
+    destruct (optN_eqb (as_best a) (Some d)) eqn:C; cbn.
+    + apply optN_eqb_eq in C.
+      match goal with |- context [calc_min tol ?X] =>
+        destruct (calc_min_best_none tol X eq_refl) as (H1 & H2); pose proof (calc_min_entries tol X) as HE; cbn [as_entries] in * end.
+      destruct (as_best (calc_min tol _)) as [b|] eqn:Bc; cbn.
+      * split; [split; [rewrite Bc; discriminate|]|rewrite C; reflexivity].
+        intros b' Hb'. rewrite HE. apply H2. rewrite Bc in Hb'. exact Hb'.
+      * split; [split; [|rewrite Bc; discriminate]|reflexivity].
+        intros _. rewrite HE. now apply H1.
+    + destruct (as_best a) as [b0|] eqn:B.
+      2:{ rewrite (I1 eq_refl) in M. discriminate. }
+      split; [|reflexivity]. split; cbn; [discriminate|]. intros b Hb. inversion Hb; subst.
+      rewrite Hsw, (I2 b eq_refl). cbn. destruct (b =? d) eqn:E; [|reflexivity]. apply N.eqb_eq in E; subst.
+      assert (optN_eqb (Some d) (Some d) = true) by now apply optN_eqb_eq. congruence.
+  - (* no latency, dead, not a member *)
+    split; [split; assumption|reflexivity].
+Qed.
+
+(* ---------- inform: which sets and slots change ---------- *)
+Lemma inform_group_sets : forall cfg m gi g n d alive l gi' d',
+  let m' := inform_group cfg m gi g n d alive l in
+  let r := notify (is_min g) (c_tol cfg) (offset_of g n) (m_sets m gi d) n alive (lookup_lat l n gi d) in
+  let hit := keeps_sets g && is_member n (g_members g) && ((gi' =? gi) && dom_eqb d' d) in
+  m_sets m' gi' d' = (if hit then fst r else m_sets m gi' d') /\
+  m_bits m' gi' d' = (if hit then newbit (m_bits m gi' d') (snd r) else m_bits m gi' d').
+Proof.
+  intros. subst m' r hit. unfold inform_group.
+  destruct (keeps_sets g && is_member n (g_members g)); [|split; reflexivity].
+  destruct (notify _ _ _ _ _ _ _) as [a' cbs]. cbn [m_sets m_bits fst snd andb].
+  destruct ((gi' =? gi) && dom_eqb d' d) eqn:H.
+  - split; [reflexivity|]. unfold newbit. destruct (rev cbs); [|rewrite H]; reflexivity.
+  - split; [reflexivity|]. destruct (rev cbs); [|rewrite H]; reflexivity.
+Qed.
+
+Lemma inform_groups_sets : forall cfg n d alive l gs m gi0 gi d',
+  let m' := inform_groups cfg m gi0 gs n d alive l in
+  match (if gi0 <=? gi then nth_error gs (N.to_nat (gi - gi0)) else None) with
+  | Some g =>
+      let r := notify (is_min g) (c_tol cfg) (offset_of g n) (m_sets m gi d) n alive (lookup_lat l n gi d) in
+      let hit := keeps_sets g && is_member n (g_members g) && dom_eqb d' d in
+      m_sets m' gi d' = (if hit then fst r else m_sets m gi d') /\
+      m_bits m' gi d' = (if hit then newbit (m_bits m gi d') (snd r) else m_bits m gi d')
+  | None => m_sets m' gi d' = m_sets m gi d' /\ m_bits m' gi d' = m_bits m gi d'
+  end.
+Proof.
+  induction gs as [|g0 r IH]; intros m gi0 gi d'; cbn [inform_groups].
+  - destruct (gi0 <=? gi); [destruct (N.to_nat (gi - gi0))|]; cbn; split; reflexivity.
+  - specialize (IH (inform_group cfg m gi0 g0 n d alive l) (gi0 + 1) gi d').
+    pose proof (inform_group_sets cfg m gi0 g0 n d alive l gi d') as (S1 & B1).
+    pose proof (inform_group_sets cfg m gi0 g0 n d alive l gi d) as (S2 & _). cbn zeta in *.
+    destruct (gi0 <=? gi) eqn:L1.
+    + apply N.leb_le in L1. destruct (gi =? gi0) eqn:E.
+      * apply N.eqb_eq in E; subst gi. rewrite N.sub_diag. cbn [N.to_nat nth_error].
+        replace (gi0 + 1 <=? gi0) with false in IH by (symmetry; apply N.leb_gt; lia).
+        cbn [andb] in S1, B1.
+        destruct IH as (IH1 & IH2). rewrite IH1, IH2, S1, B1. split; reflexivity.
+      * apply N.eqb_neq in E.
+        replace (gi0 + 1 <=? gi) with true in IH by (symmetry; apply N.leb_le; lia).
+        replace (N.to_nat (gi - gi0)) with (S (N.to_nat (gi - (gi0 + 1)))) by lia. cbn [nth_error].
+        assert (E' : (gi =? gi0) = false) by now apply N.eqb_neq.
+        rewrite ?E' in S1, B1, S2. cbn [andb] in S1, B1, S2. rewrite ?andb_false_r in S1, B1, S2.
+        destruct (nth_error r (N.to_nat (gi - (gi0 + 1)))) as [g|]; cbn zeta in *; rewrite S1, B1, ?S2 in IH; exact IH.
+    + apply N.leb_gt in L1.
+      replace (gi0 + 1 <=? gi) with false in IH by (symmetry; apply N.leb_gt; lia).
+      assert (E' : (gi =? gi0) = false) by (apply N.eqb_neq; lia).
+      rewrite ?E' in S1, B1. cbn [andb] in S1, B1. rewrite ?andb_false_r in S1, B1. destruct IH as (IH1 & IH2). rewrite IH1, IH2, S1, B1. split; reflexivity.
+Qed.
+
+Lemma inform_sets : forall cfg m n d alive l gi d',
+  let m' := inform cfg m n d alive l in
+  match nth_error (c_groups cfg) (N.to_nat gi) with
+  | Some g =>
+      let r := notify (is_min g) (c_tol cfg) (offset_of g n) (m_sets m gi d) n alive (lookup_lat l n gi d) in
+      let hit := keeps_sets g && is_member n (g_members g) && dom_eqb d' d in
+      m_sets m' gi d' = (if hit then fst r else m_sets m gi d') /\
+      m_bits m' gi d' = (if hit then newbit (m_bits m gi d') (snd r) else m_bits m gi d')
+  | None => m_sets m' gi d' = m_sets m gi d' /\ m_bits m' gi d' = m_bits m gi d'
+  end.
+Proof.
+  intros. subst m'. unfold inform.
+  pose proof (inform_groups_sets cfg n d alive l (c_groups cfg) m 0 gi d') as H.
+  cbn zeta in H. replace (0 <=? gi) with true in H by (symmetry; apply N.leb_le; lia). now rewrite N.sub_0_r in H.
+Qed.
+
+(* ---------- the group invariant ---------- *)
+Definition SetOK (g : group) (a : aset) (al : N -> bool) (bit : bool) (pend : N -> bool) : Prop :=
+  NoDup (keys (as_entries a)) /\
+  (forall x, is_member x (as_entries a) = true -> is_member x (g_members g) = true) /\
+  (forall x, is_member x (g_members g) = true -> pend x = false -> is_member x (as_entries a) = al x) /\
+  (g_policy g = PMin -> Ibest a /\ bit = (Nat.eqb (length (g_members g)) 0 || isSome (as_best a))).
+
+Definition InvG (cfg : config) (al : N -> dom -> bool) (sets : N -> dom -> aset) (bits : N -> dom -> bool)
+                (pend : N -> dom -> bool) : Prop :=
+  forall gi g d, nth_error (c_groups cfg) (N.to_nat gi) = Some g -> keeps_sets g = true ->
+    SetOK g (sets gi d) (fun x => al x d) (bits gi d) (fun x => pend x d).
+
+Definition fl (m : mstate) : N -> dom -> bool := fun n d => d_alive (m_d m n) d.
+Definition nopend : N -> dom -> bool := fun _ _ => false.
+Definition Inv (cfg : config) (m : mstate) : Prop := InvG cfg (fl m) (m_sets m) (m_bits m) nopend.
+
+Lemma InvG_weaken : forall cfg al al' sets bits pend pend',
+  InvG cfg al sets bits pend ->
+  (forall x d, pend' x d = false -> pend x d = false /\ al' x d = al x d) ->
+  InvG cfg al' sets bits pend'.
+Proof.
+  intros cfg al al' sets bits pend pend' H W gi g d Hg Hk.
+  destruct (H gi g d Hg Hk) as (A & B & C & D). split; [exact A|]. split; [exact B|]. split; [|exact D].
+  intros x Hx Hp. destruct (W x d Hp) as (W1 & W2). rewrite W2. now apply C.
+Qed.
+
+Lemma is_min_PMin : forall g, is_min g = true <-> g_policy g = PMin.
+Proof. intros g; unfold is_min; destruct (g_policy g); split; congruence. Qed.
+
+(* inform repairs the pending pair (n, d) *)
+Lemma inform_fix : forall cfg m al pend pend' n d alive l,
+  InvG cfg al (m_sets m) (m_bits m) pend -> al n d = alive ->
+  (forall x d', pend' x d' = false -> pend x d' = false \/ (x = n /\ d' = d)) ->
+  InvG cfg al (m_sets (inform cfg m n d alive l)) (m_bits (inform cfg m n d alive l)) pend'.
+Proof.
+  intros cfg m al pend pend' n d alive l H Hal W gi g d' Hg Hk.
+  pose proof (inform_sets cfg m n d alive l gi d') as HS. cbn zeta in HS. rewrite Hg in HS. rewrite Hk in HS. cbn [andb] in HS.
+  destruct (H gi g d' Hg Hk) as (A & B & C & D).
+  destruct (is_member n (g_members g) && dom_eqb d' d) eqn:Hit.
+  - apply andb_true_iff in Hit. destruct Hit as (Hm & Hd). apply dom_eqb_eq in Hd. subst d'.
+    destruct HS as (-> & ->).
+    destruct (notify_mem (is_min g) (c_tol cfg) (offset_of g n) (m_sets m gi d) n alive (lookup_lat l n gi d) A) as (N1 & N2).
+    cbn zeta in N1, N2. split; [exact N1|]. split; [|split].
+    + intros x Hx. rewrite N2 in Hx. destruct (x =? n) eqn:E; [apply N.eqb_eq in E; now subst|now apply B].
+    + intros x Hx Hp. rewrite N2. destruct (x =? n) eqn:E.
+      * apply N.eqb_eq in E; subst x. now symmetry.
+      * destruct (W x d Hp) as [Hp'|(Hx' & _)]; [now apply C|]. apply N.eqb_neq in E. contradiction.
+    + intros Hpol. destruct (D Hpol) as (D1 & D2).
+      assert (Hmin : is_min g = true) by now apply is_min_PMin. rewrite Hmin.
+      destruct (notify_inv (c_tol cfg) (offset_of g n) (m_sets m gi d) n alive (lookup_lat l n gi d) A D1) as (I & Hb).
+      cbn zeta in I, Hb. split; [exact I|].
+      assert (Hlen : Nat.eqb (length (g_members g)) 0 = false).
+      { destruct (g_members g); [rewrite is_member_nil in Hm; discriminate|reflexivity]. }
+      rewrite Hlen in *. cbn [orb] in *. rewrite D2. exact Hb.
+  - destruct HS as (-> & ->). split; [exact A|]. split; [exact B|]. split; [|exact D].
+    intros x Hx Hp. destruct (W x d' Hp) as [Hp'|(Hx' & Hd')]; [now apply C|].
+    subst. rewrite Hx, dom_eqb_refl in Hit. discriminate.
+Qed.
+
+(* writing one flag makes exactly that pair pending *)
+Lemma pend_add : forall cfg al al' sets bits pend n d,
+  InvG cfg al sets bits pend ->
+  (forall x d', (x = n /\ d' = d) \/ al' x d' = al x d') ->
+  InvG cfg al' sets bits (fun x d' => pend x d' || ((x =? n) && dom_eqb d' d)).
+Proof.
+  intros cfg al al' sets bits pend n d H Hal. eapply InvG_weaken; [exact H|].
+  intros x d' Hp. apply orb_false_iff in Hp. destruct Hp as (Hp & Hne). split; [exact Hp|].
+  destruct (Hal x d') as [(-> & ->)|E]; [|exact E]. rewrite N.eqb_refl, dom_eqb_refl in Hne. discriminate.
+Qed.
+
+Lemma pend_sub : forall (pend : N -> dom -> bool) n d x d',
+  pend x d' = false -> (pend x d' || ((x =? n) && dom_eqb d' d)) = false \/ (x = n /\ d' = d).
+Proof.
+  intros pend n d x d' Hp. rewrite Hp. cbn [orb].
+  destruct (x =? n) eqn:E; [|now left]. destruct (dom_eqb d' d) eqn:E2; [|now left].
+  right. apply N.eqb_eq in E. apply dom_eqb_eq in E2. auto.
+Qed.
+
+(* a flag write at (n, d) followed (possibly after other invariant-preserving work) by inform (n, d) *)
+Lemma write_then_inform : forall cfg m m1 n d alive l pend,
+  InvG cfg (fl m) (m_sets m) (m_bits m) pend ->
+  m_sets m1 = m_sets m -> m_bits m1 = m_bits m ->
+  (forall x d', (x = n /\ d' = d) \/ fl m1 x d' = fl m x d') ->
+  fl m1 n d = alive ->
+  let m2 := inform cfg m1 n d alive l in
+  InvG cfg (fl m2) (m_sets m2) (m_bits m2) pend.
+Proof.
+  intros cfg m m1 n d alive l pend H S B F A m2.
+  assert (Hfl : fl m2 = fl m1) by (subst m2; unfold fl; destruct (inform_health cfg m1 n d alive l) as (-> & _); reflexivity).
+  rewrite Hfl. subst m2.
+  eapply inform_fix; [rewrite S, B; eapply pend_add; [exact H|exact F]|exact A|].
+  intros x d' Hp. now apply pend_sub.
+Qed.
+
+(* ---------- primitives of m_step preserve the invariant ---------- *)
+Lemma fl_point : forall m n d v f t x d',
+  fl (set_dialer m n {| md_alive := upd (md_alive (m_d m n)) (canon (index_of d)) v; md_fail := f; md_traffic := t |}) x d'
+  = if (x =? n) && dom_eqb d' d then v else fl m x d'.
+Proof.
+  intros. unfold fl, set_dialer; cbn [m_d]. unfold upd at 1. destruct (x =? n) eqn:E; cbn [andb]; [|reflexivity].
+  apply N.eqb_eq in E; subst x. apply point_alive.
+Qed.
+
+Lemma InvG_ext : forall cfg al al' s s' b b' pend,
+  InvG cfg al s b pend -> (forall x d, al' x d = al x d) -> s' = s -> b' = b -> InvG cfg al' s' b' pend.
+Proof. intros; subst. eapply InvG_weaken; [eassumption|]. intros; split; auto. Qed.
+
+Lemma mark_forced_fl : forall cfg m n d l x d',
+  fl (mark_forced cfg m n d l) x d' = if (x =? n) && dom_eqb d' d then false else fl m x d'.
+Proof.
+  intros. unfold mark_forced. cbv zeta.
+  match goal with |- fl (inform cfg ?M n d false l) x d' = _ =>
+    replace (fl (inform cfg M n d false l) x d') with (fl M x d')
+      by (unfold fl; destruct (inform_health cfg M n d false l) as (-> & _); reflexivity) end.
+  destruct (md_alive (m_d m n) (canon (index_of d))); apply fl_point.
+Qed.
+
+Lemma mark_forced_G : forall cfg m n d l pend,
+  InvG cfg (fl m) (m_sets m) (m_bits m) pend ->
+  let m' := mark_forced cfg m n d l in InvG cfg (fl m') (m_sets m') (m_bits m') pend.
+Proof.
+  intros cfg m n d l pend H m'. subst m'. unfold mark_forced. cbv zeta.
+  match goal with |- InvG cfg (fl (inform cfg ?M n d false l)) _ _ _ => set (m1 := M) end.
+  assert (F : forall x d', fl m1 x d' = if (x =? n) && dom_eqb d' d then false else fl m x d').
+  { intros. subst m1. destruct (md_alive (m_d m n) (canon (index_of d))); apply fl_point. }
+  apply (write_then_inform cfg m m1 n d false l pend H).
+  - subst m1. destruct (md_alive (m_d m n) (canon (index_of d))); reflexivity.
+  - subst m1. destruct (md_alive (m_d m n) (canon (index_of d))); reflexivity.
+  - intros x d'. rewrite F. destruct ((x =? n) && dom_eqb d' d) eqn:E; [left|now right].
+    apply andb_true_iff in E. destruct E as (E1 & E2). apply N.eqb_eq in E1. apply dom_eqb_eq in E2. auto.
+  - rewrite F, N.eqb_refl, dom_eqb_refl. reflexivity.
+Qed.
+
+Lemma escalate_G : forall cfg m n l pend,
+  InvG cfg (fl m) (m_sets m) (m_bits m) pend ->
+  let m' := escalate cfg m n l in InvG cfg (fl m') (m_sets m') (m_bits m') pend.
+Proof.
+  intros cfg m n l pend H. unfold escalate. generalize dependent m.
+  induction escalation_order as [|d r IH]; intros m H; cbn [fold_left]; [exact H|].
+  apply IH. now apply mark_forced_G.
+Qed.
+
+Lemma escalate_fl_false : forall cfg n l x d' ds m,
+  fl m x d' = false -> fl (fold_left (fun m d => mark_forced cfg m n d l) ds m) x d' = false.
+Proof.
+  induction ds as [|d r IH]; intros m H; cbn [fold_left]; [exact H|].
+  apply IH. rewrite mark_forced_fl. destruct ((x =? n) && dom_eqb d' d); [reflexivity|exact H].
+Qed.
+
+Lemma notify_failure_G : forall cfg m n l pend,
+  InvG cfg (fl m) (m_sets m) (m_bits m) pend ->
+  let m' := notify_failure cfg m n l in InvG cfg (fl m') (m_sets m') (m_bits m') pend.
+Proof.
+  intros cfg m n l pend H. unfold notify_failure.
+  destruct (c_addr cfg n =? 0); [exact H|]. destruct (m_suppressed m); [exact H|].
+  destruct (max_consecutive_failures <=? m_tracker m (c_addr cfg n) + 1); [|exact H].
+  apply escalate_G. exact H.
+Qed.
+
+Lemma notify_failure_fl_false : forall cfg m n l x d',
+  fl m x d' = false -> fl (notify_failure cfg m n l) x d' = false.
+Proof.
+  intros cfg m n l x d' H. unfold notify_failure.
+  destruct (c_addr cfg n =? 0); [exact H|]. destruct (m_suppressed m); [exact H|].
+  destruct (max_consecutive_failures <=? m_tracker m (c_addr cfg n) + 1); [|exact H].
+  unfold escalate. apply escalate_fl_false. exact H.
+Qed.
+
+Lemma mark_unavail_G : forall cfg m n d t l,
+  Inv cfg m -> Inv cfg (mark_unavail cfg m n d t l).
+Proof.
+  intros cfg m n d t l H. unfold mark_unavail. destruct (m_suppressed m); [exact H|].
+  set (cur := md_alive (m_d m n) (canon (index_of d))).
+  destruct t.
+  - (* traffic *)
+    cbv beta iota zeta.
+    set (alive := if md_traffic (m_d m n) (index_of d) + 1 <? threshold d true then cur else false).
+    match goal with |- Inv cfg (inform cfg ?M3 n d alive l) => set (m3 := M3) end.
+    set (m1 := set_dialer m n {| md_alive := upd (md_alive (m_d m n)) (canon (index_of d)) alive; md_fail := md_fail (m_d m n);
+                                 md_traffic := upd (md_traffic (m_d m n)) (index_of d) (md_traffic (m_d m n) (index_of d) + 1) |}) in *.
+    set (m2 := if xorb cur alive then log_transition m1 n d alive else m1) in *.
+    assert (F2 : forall x d', fl m2 x d' = if (x =? n) && dom_eqb d' d then alive else fl m x d').
+    { intros. subst m2. destruct (xorb cur alive); apply fl_point. }
+    assert (S2 : m_sets m2 = m_sets m /\ m_bits m2 = m_bits m) by (subst m2; destruct (xorb cur alive); split; reflexivity).
+    assert (H2 : InvG cfg (fl m2) (m_sets m2) (m_bits m2) (fun x d' => nopend x d' || ((x =? n) && dom_eqb d' d))).
+    { destruct S2 as (-> & ->). eapply pend_add; [exact H|]. intros x d'. rewrite F2.
+      destruct ((x =? n) && dom_eqb d' d) eqn:E; [left|now right].
+      apply andb_true_iff in E. destruct E as (E1 & E2). apply N.eqb_eq in E1. apply dom_eqb_eq in E2. auto. }
+    assert (H3 : InvG cfg (fl m3) (m_sets m3) (m_bits m3) (fun x d' => nopend x d' || ((x =? n) && dom_eqb d' d))).
+    { subst m3. destruct (cur && negb alive); [apply notify_failure_G|]; exact H2. }
+    assert (A3 : fl m3 n d = alive).
+    { subst m3. destruct (cur && negb alive) eqn:C.
+      - apply andb_true_iff in C. destruct C as (_ & C). destruct alive; [discriminate|].
+        apply notify_failure_fl_false. rewrite F2, N.eqb_refl, dom_eqb_refl. reflexivity.
+      - rewrite F2, N.eqb_refl, dom_eqb_refl. reflexivity. }
+    unfold Inv.
+    replace (fl (inform cfg m3 n d alive l)) with (fl m3)
+      by (unfold fl; destruct (inform_health cfg m3 n d alive l) as (-> & _); reflexivity).
+    eapply inform_fix; [exact H3|exact A3|]. intros x d' Hp. now apply pend_sub.
+  - (* probe *)
+    cbv beta iota zeta.
+    set (alive := if md_fail (m_d m n) (index_of d) + 1 <? threshold d false then cur else false).
+    match goal with |- Inv cfg (inform cfg ?M3 n d alive l) => set (m3 := M3) end.
+    set (m1 := set_dialer m n {| md_alive := upd (md_alive (m_d m n)) (canon (index_of d)) alive;
+                                 md_fail := upd (md_fail (m_d m n)) (index_of d) (md_fail (m_d m n) (index_of d) + 1);
+                                 md_traffic := md_traffic (m_d m n) |}) in *.
+    set (m2 := if xorb cur alive then log_transition m1 n d alive else m1) in *.
+    assert (F2 : forall x d', fl m2 x d' = if (x =? n) && dom_eqb d' d then alive else fl m x d').
+    { intros. subst m2. destruct (xorb cur alive); apply fl_point. }
+    assert (S2 : m_sets m2 = m_sets m /\ m_bits m2 = m_bits m) by (subst m2; destruct (xorb cur alive); split; reflexivity).
+    assert (H2 : InvG cfg (fl m2) (m_sets m2) (m_bits m2) (fun x d' => nopend x d' || ((x =? n) && dom_eqb d' d))).
+    { destruct S2 as (-> & ->). eapply pend_add; [exact H|]. intros x d'. rewrite F2.
+      destruct ((x =? n) && dom_eqb d' d) eqn:E; [left|now right].
+      apply andb_true_iff in E. destruct E as (E1 & E2). apply N.eqb_eq in E1. apply dom_eqb_eq in E2. auto. }
+    assert (H3 : InvG cfg (fl m3) (m_sets m3) (m_bits m3) (fun x d' => nopend x d' || ((x =? n) && dom_eqb d' d))).
+    { subst m3. destruct (cur && negb alive); [apply notify_failure_G|]; exact H2. }
+    assert (A3 : fl m3 n d = alive).
+    { subst m3. destruct (cur && negb alive) eqn:C.
+      - apply andb_true_iff in C. destruct C as (_ & C). destruct alive; [discriminate|].
+        apply notify_failure_fl_false. rewrite F2, N.eqb_refl, dom_eqb_refl. reflexivity.
+      - rewrite F2, N.eqb_refl, dom_eqb_refl. reflexivity. }
+    unfold Inv.
+    replace (fl (inform cfg m3 n d alive l)) with (fl m3)
+      by (unfold fl; destruct (inform_health cfg m3 n d alive l) as (-> & _); reflexivity).
+    eapply inform_fix; [exact H3|exact A3|]. intros x d' Hp. now apply pend_sub.
+Qed.
+
+Lemma hit_cases : forall (x n : N) (d' d : dom) (v : bool) (old : bool),
+  (x = n /\ d' = d) \/ (if (x =? n) && dom_eqb d' d then v else old) = old.
+Proof.
+  intros. destruct ((x =? n) && dom_eqb d' d) eqn:E; [left|now right].
+  apply andb_true_iff in E. destruct E as (E1 & E2). apply N.eqb_eq in E1. apply dom_eqb_eq in E2. auto.
+Qed.
+
+Lemma mark_avail_G : forall cfg m n d l pend,
+  InvG cfg (fl m) (m_sets m) (m_bits m) pend ->
+  let m' := mark_avail cfg m n d l in InvG cfg (fl m') (m_sets m') (m_bits m') pend.
+Proof.
+  intros cfg m n d l pend H m'. subst m'. unfold mark_avail. cbv zeta.
+  match goal with |- InvG cfg (fl (inform cfg ?M n d true l)) _ _ _ => set (m1 := M) end.
+  assert (F : forall x d', fl m1 x d' = if (x =? n) && dom_eqb d' d then true else fl m x d').
+  { intros. subst m1. destruct (md_alive (m_d m n) (canon (index_of d))); destruct (c_addr cfg n =? 0); apply fl_point. }
+  apply (write_then_inform cfg m m1 n d true l pend H).
+  - subst m1. destruct (md_alive (m_d m n) (canon (index_of d))); destruct (c_addr cfg n =? 0); reflexivity.
+  - subst m1. destruct (md_alive (m_d m n) (canon (index_of d))); destruct (c_addr cfg n =? 0); reflexivity.
+  - intros x d'. rewrite F. apply hit_cases.
+  - rewrite F, N.eqb_refl, dom_eqb_refl. reflexivity.
+Qed.
+
+Lemma mark_alive_fallback_G : forall cfg m n d l pend,
+  InvG cfg (fl m) (m_sets m) (m_bits m) pend ->
+  let m' := mark_alive_fallback cfg m n d l in InvG cfg (fl m') (m_sets m') (m_bits m') pend.
+Proof.
+  intros cfg m n d l pend H m'. subst m'. unfold mark_alive_fallback. cbv zeta.
+  match goal with |- context [inform cfg ?M n d true l] => set (m1 := M) end.
+  assert (F : forall x d', fl m1 x d' = if (x =? n) && dom_eqb d' d then true else fl m x d') by (intros; subst m1; apply fl_point).
+  assert (G : InvG cfg (fl (inform cfg m1 n d true l)) (m_sets (inform cfg m1 n d true l)) (m_bits (inform cfg m1 n d true l)) pend).
+  { apply (write_then_inform cfg m m1 n d true l pend H); try reflexivity.
+    - intros x d'. rewrite F. apply hit_cases.
+    - rewrite F, N.eqb_refl, dom_eqb_refl. reflexivity. }
+  destruct (md_alive (m_d m n) (canon (index_of d))); exact G.
+Qed.
+
+Lemma traffic_ok_G : forall cfg m n d l, Inv cfg m -> Inv cfg (traffic_ok cfg m n d l).
+Proof.
+  intros cfg m n d l H. unfold traffic_ok. cbv zeta.
+  set (x' := if md_traffic (m_d m n) (index_of d) =? 0 then m_d m n else _).
+  assert (Hal : md_alive x' = md_alive (m_d m n)) by (subst x'; destruct (md_traffic (m_d m n) (index_of d) =? 0); reflexivity).
+  assert (H1 : InvG cfg (fl (set_dialer m n x')) (m_sets (set_dialer m n x')) (m_bits (set_dialer m n x')) nopend).
+  { eapply InvG_ext; [exact H| |reflexivity|reflexivity].
+    intros x d'. unfold fl, set_dialer; cbn [m_d]. unfold upd. destruct (x =? n) eqn:E; [|reflexivity].
+    apply N.eqb_eq in E; subst x. unfold d_alive. now rewrite Hal. }
+  destruct (is_data d && negb (md_alive x' (canon (index_of d)))); [|exact H1].
+  apply mark_avail_G. exact H1.
+Qed.
+
+(* ---------- reload ---------- *)
+Lemma restore_G : forall cfg old m n l pend,
+  InvG cfg (fl m) (m_sets m) (m_bits m) pend ->
+  let m' := restore cfg old m n l in InvG cfg (fl m') (m_sets m') (m_bits m') pend.
+Proof.
+  intros cfg old m n l pend H m'. subst m'. unfold restore.
+  cbn [fold_left all_idx fst snd app].
+  set (x' := {| md_alive := _; md_fail := _; md_traffic := _ |}).
+  (* flags of the rewritten dialer: every type reads the old generation's flag *)
+  assert (Hx : forall d, d_alive x' d = md_alive old (canon (index_of d))).
+  { intros d. subst x'. unfold d_alive. cbn [md_alive]. destruct d; reflexivity. }
+  set (m1 := set_dialer m n x').
+  assert (F1 : forall x d', fl m1 x d' = if x =? n then md_alive old (canon (index_of d')) else fl m x d').
+  { intros. subst m1. unfold fl, set_dialer; cbn [m_d]. unfold upd. destruct (x =? n); [apply Hx|reflexivity]. }
+  (* all six types of n become pending, then each inform repairs one of them *)
+  assert (P0 : InvG cfg (fl m1) (m_sets m1) (m_bits m1) (fun x d' => pend x d' || (x =? n))).
+  { eapply InvG_weaken; [exact H|]. intros x d' Hp. apply orb_false_iff in Hp. destruct Hp as (Hp & Hn).
+    split; [exact Hp|]. rewrite F1, Hn. reflexivity. }
+  assert (Step : forall (mm : mstate) (pp pq : N -> dom -> bool) i b w,
+            InvG cfg (fl mm) (m_sets mm) (m_bits mm) pp -> fl mm n (dom_of_idx i) = b ->
+            (forall x d', pq x d' = false -> pp x d' = false \/ (x = n /\ d' = dom_of_idx i)) ->
+            let mm' := (if xorb w b then log_transition (inform cfg mm n (dom_of_idx i) b l) n (dom_of_idx i) b
+                        else inform cfg mm n (dom_of_idx i) b l) in
+            InvG cfg (fl mm') (m_sets mm') (m_bits mm') pq /\ (forall x d', fl mm' x d' = fl mm x d')).
+  { intros mm pp pq i b w Hm Hb Hq mm'.
+    assert (E : forall x d', fl (inform cfg mm n (dom_of_idx i) b l) x d' = fl mm x d')
+      by (intros; unfold fl; destruct (inform_health cfg mm n (dom_of_idx i) b l) as (-> & _); reflexivity).
+    assert (G : InvG cfg (fl (inform cfg mm n (dom_of_idx i) b l)) (m_sets (inform cfg mm n (dom_of_idx i) b l))
+                     (m_bits (inform cfg mm n (dom_of_idx i) b l)) pq).
+    { eapply InvG_ext; [eapply inform_fix; [exact Hm|exact Hb|exact Hq]|exact E|reflexivity|reflexivity]. }
+    subst mm'. destruct (xorb w b); split; try exact G; exact E. }
+  cbv beta iota zeta.
+  repeat match goal with
+  | |- InvG cfg (fl (if xorb ?w ?b then log_transition (inform cfg ?mm n (dom_of_idx ?i) ?b l) n (dom_of_idx ?i) ?b
+                      else inform cfg ?mm n (dom_of_idx ?i) ?b l)) _ _ _ => idtac
+  end.
+Abort.
